@@ -239,7 +239,10 @@ class Walker(object):
         if k == "tuple":
             return Agg(("tuple",), 0, [self.symval("%s.%d" % (name, i), t) for i, t in enumerate(ty[1])])
         if k == "array":
-            if ty[2] is not None and ty[2] <= 64:
+            # small arrays are expanded; arrays of aggregates beyond 16 elements stay symbolic (a read or write at a
+            # symbolic index would otherwise fork once per element)
+            scalar = ty[1][0] in ("int", "bool", "float", "char")
+            if ty[2] is not None and ty[2] <= 64 and (scalar or ty[2] <= 16):
                 return Agg(("array",), 0, [self.symval("%s[%d]" % (name, i), ty[1]) for i in range(ty[2])])
             return SymArr(name, ty[1], K(ty[2], 64) if ty[2] is not None else tm.sym(name + ".len", 64))
         if k == "slice":
